@@ -172,8 +172,11 @@ func Compare(exp *ref.Result, out *Outcome, o CompareOpts) string {
 	// error paths as multisets; "arg" errors may carry a longer path (argument name)
 	var want []string
 	var wantArg []string
+	optional := map[string]bool{}
 	for _, e := range exp.Errs {
-		if e.Kind == "arg" {
+		if e.Kind == "optional" {
+			optional[pathKey(e.Path)] = true
+		} else if e.Kind == "arg" {
 			wantArg = append(wantArg, pathKey(e.Path))
 		} else {
 			want = append(want, pathKey(e.Path))
@@ -196,7 +199,7 @@ func Compare(exp *ref.Result, out *Outcome, o CompareOpts) string {
 	}
 	// each remaining actual error must be explained by an arg error prefix, one to one or more (several bad args)
 	for _, g := range rest {
-		okp := false
+		okp := optional[g]
 		for _, w := range wantArg {
 			if g == w || strings.HasPrefix(g, w+"/") {
 				okp = true
